@@ -378,7 +378,9 @@ func c20Run(c c20Case, st *fw.Stats) []fw.Viol {
 				st.Nontrivial++
 				var seenMethod string
 				var seenOrig any
+				seenPayload := "<not read>"
 				var inner http.Handler = http.HandlerFunc(func(w http.ResponseWriter, req *http.Request) {
+					seenPayload = req.PostFormValue("payload")
 					seenMethod = req.Method
 					seenOrig = req.Context().Value(handlers.OriginalMethodContextKey)
 				})
@@ -391,6 +393,7 @@ func c20Run(c c20Case, st *fw.Stats) []fw.Viol {
 					see := func(ctx *rux.Context) {
 						// (a value of its own added to the request context must not hide what is already there)
 						ctx.WithReqCtxValue("verif-own-key", "1")
+						seenPayload = ctx.Req.PostFormValue("payload")
 						seenMethod = ctx.Req.Method
 						seenOrig = ctx.ReqCtxValue(handlers.OriginalMethodContextKey)
 						// a copy of the context (kept for a background job, say) still tells how the request came in
@@ -429,6 +432,12 @@ func c20Run(c c20Case, st *fw.Stats) []fw.Viol {
 				if carrier == "query+malformed-body" {
 					body = "x=%zz"
 				}
+				// every request also posts a form value of its own: the downstream handler still receives it
+				if body == "" {
+					body = "payload=P1"
+				} else {
+					body = "payload=P1&" + body
+				}
 				req := httptest.NewRequest(c.Method, target, strings.NewReader(body))
 				if body != "" {
 					req.Header.Set("Content-Type", "application/x-www-form-urlencoded")
@@ -449,6 +458,10 @@ func c20Run(c c20Case, st *fw.Stats) []fw.Viol {
 				wantMethod, wantOrig := c.Method, any(nil)
 				if rewrite {
 					wantMethod, wantOrig = up, "POST"
+				}
+				if c.Method == "POST" && wantMethod != "DELETE" && seenPayload != "P1" {
+					// (net/http reads body form values for POST, PUT and PATCH requests)
+					add("override:posted-form-lost", fmt.Sprintf("request method POST with the form body %q, override value %q via %s%s: downstream (method %q) reads the posted form value payload=%q, expected \"P1\"", body, v, carrier, behind, seenMethod, seenPayload))
 				}
 				if seenMethod != wantMethod || seenOrig != wantOrig {
 					sig := "override:rewrite"
@@ -590,7 +603,7 @@ var c20Spec = fw.Spec[c20Case]{
 	ID:    "C20",
 	Level: "model_checking",
 	Rule: "complete decision tables: HTTPBasicAuth: 6 account maps (nil, empty, one user, empty password, two users, password containing ':') x 27 Authorization values (incl. the full square of known / unknown / empty users x matching / other / empty passwords) (absent, valid, wrong password, unknown user, empty user / password, no colon, bare scheme, bad base64, scheme in other case, other scheme, double space, padding, leading space, case-changed user, empty) x 24 placements (a group gate around a controller mounted with / without middleware of its own; a gated dynamic route registered on a caching router after a public two-variable route had answered the path; right after a request whose first handler panicked without a hook (the caller recovered); on a Route value attached inside a group and given the gate afterwards with Route.Use; per-action middleware of a resource's two-method Update action, asked with PUT and with PATCH; first handler of a custom NotFound chain on a router without global middleware that served unmatched and matched requests before; two stacked gates with different account lists are among them; a global gate installed after the route served its first request; the gated route reached through another route's middleware that re-dispatches with HandleContext; behind a middleware that has already written body bytes; two gates registered from one call site with Router.Use, globally and inside a group; route, global, group middleware; global gate in front of the not-allowed and of the not-found handlers; a dynamic route on a caching router, first request and repeat after a valid one filled the cache; route-level gate of the first of several sibling routes inside nested groups / inside a group with three Use calls, with two and with exactly one route-level middleware per sibling); " +
-		"HTTPMethodOverrideHandler: 10 request methods x 13 override values x 9 carriers (none, header, query, body, header+query agreeing, header+body disagreeing - for totality only -, and a carrier next to an unrelated malformed query / body pair) x {a plain net/http handler downstream, a rux router whose handler sits behind handlers.Timeout and a wrapped net/http handler}; WrapHTTPHandlers: lists of 1..4 distinguishable wrappers (+ the override gate in the list); WrapHTTPHandler / WrapHTTPHandlerFunc and their four aliases at every subset of positions of chains n<=4; every row is non-trivial",
+		"HTTPMethodOverrideHandler: 10 request methods x 13 override values x 9 carriers (none, header, query, body, header+query agreeing, header+body disagreeing - for totality only -, and a carrier next to an unrelated malformed query / body pair) x {a plain net/http handler downstream, a rux router whose handler sits behind handlers.Timeout and a wrapped net/http handler}, every request posting a form value of its own that the downstream handler of a POST / PUT / PATCH request still reads; WrapHTTPHandlers: lists of 1..4 distinguishable wrappers (+ the override gate in the list); WrapHTTPHandler / WrapHTTPHandlerFunc and their four aliases at every subset of positions of chains n<=4; every row is non-trivial",
 	Assume: []string{"'well-formed Basic credentials' = scheme Basic (any case), one space, valid base64, a colon in the decoded text", "when both override carriers disagree the statement does not say which wins; those rows are executed but not asserted"},
 	Bounds: func(tier string) map[string]any {
 		return map[string]any{"accounts": len(c20Accounts), "authorization_values": len(c20Auth), "wrapper_lists": "1..4", "chains": "n<=4, all subsets of wrapped positions"}
